@@ -55,7 +55,9 @@ func (c *Consistent) RemoveNode(node string) {
 	for i := 0; i < ReplicaCount; i++ {
 		var replica = fmt.Sprintf("%s-%d", node, i)
 		var key = c.hashKey(replica)
-		delete(c.circle, key)
+		if c.circle[key] == node {
+			delete(c.circle, key)
+		}
 	}
 	delete(c.nodes, node)
 	c.updateSortedHash()
